@@ -132,6 +132,26 @@ func scenarios(run *ev.Run) []*scenario {
 		add("growth_vs_stale_vs_badproof/3", u, pre, []opSpec{a}, []opSpec{b}, []opSpec{bad})
 	}
 	{
+		// byte-identical checkpoint and old size, proofs of differing validity: each request is judged on
+		// its own proof, whoever else is in flight
+		u, l, _ := mk()
+		pre := []opSpec{upd(l, 0, 0, 4, 0, "prelude b0@4")}
+		good := upd(l, 0, 4, 7, 4, "grow 4->7")
+		withProof := func(p [][]byte, desc string) opSpec { // the very same checkpoint bytes, another proof
+			o := good
+			o.proof, o.desc = p, desc
+			o.req.Proof = p
+			return o
+		}
+		other := withProof(l.Branches[0].Consistency(3, 7), "grow 4->7 (same bytes) with the proof for 3->7")
+		none := withProof([][]byte{}, "grow 4->7 (same bytes) with an empty proof")
+		exhaustive()
+		add("same_checkpoint_other_proof/2", u, pre, []opSpec{good}, []opSpec{other})
+		add("same_checkpoint_other_proof/2b", u, pre, []opSpec{other}, []opSpec{good})
+		bounded(2, -1)
+		add("same_checkpoint_other_proof/3", u, pre, []opSpec{good}, []opSpec{other}, []opSpec{none})
+	}
+	{
 		u, l, m := mk()
 		pre := []opSpec{upd(l, 0, 0, 4, 0, "prelude l0@4")}
 		a, b := upd(l, 0, 4, 7, 4, "l0 grow 4->7"), upd(m, 0, 0, 5, 0, "l1 first @5")
